@@ -5,7 +5,16 @@
 //! Sub-checks
 //!   honest_row            a row filled in by the gate's own generators satisfies every constraint
 //!   pinned                every generator-written wire x 3 replacement values => some constraint != 0
-//!   evaluators_base       eval_unfiltered == eval_unfiltered_base_batch (batch 1, 3, 32, 33) ==
+//!   pair_pinned           after replacing one generator-written value, no second generator-written
+//!                         value can be adjusted so that the row satisfies all constraints again
+//!                         (a hit is an explicit second satisfying completion of the same inputs)
+//!   jointly_pinned        the Jacobian of the constraints w.r.t. the generator-written wires has
+//!                         full column rank at the honest row (no direction in which several written
+//!                         values move together with all constraints zero to first order)
+//!   (sweep)               before the generated sub-checks: every parameter value of every gate, one
+//!                         fixed row each, through all sub-checks; also yields the per-gate table
+//!                         of generator-written / pinned wires (evidence key generator_written_wires)
+//!   evaluators_base      eval_unfiltered == eval_unfiltered_base_batch (batch 1, 3, 32, 33) ==
 //!                         eval_unfiltered_base_one (where the gate implements it), on arbitrary rows
 //!   evaluators_circuit    eval_unfiltered == values read back from a witness generated for
 //!                         eval_unfiltered_circuit, on arbitrary extension-field rows
@@ -1264,7 +1273,8 @@ pub fn run(ctx: &mut Ctx) {
                 the wires some generator watches and none writes (found by running the generators), values from G-field mapped \
                 into the generators' preconditions, the gate's own generators (plus the builder's ConstantGenerator per \
                 extra_constant_wires entry) fill the rest; pinned replaces EVERY generator-written wire by old+1, 0/1 and a \
-                generated value; evaluators_*: arbitrary rows; degree: random witness polynomials of degree < 4 or 8. \
+                generated value; pair_pinned / jointly_pinned strengthen this to two values replaced together and to first-order \
+                joint uniqueness; a deterministic sweep runs every parameter value once through all sub-checks; evaluators_*: arbitrary rows; degree: random witness polynomials of degree < 4 or 8. \
                 non-trivial = gate has >= 1 generator-written wire (pinned) / >= 1 constraint (others); \
                 distinct = (gate id incl. parameters, wire, input class)"
         .into();
@@ -1272,6 +1282,7 @@ pub fn run(ctx: &mut Ctx) {
     ctx.assumptions.push("wire values may be any 64-bit representation of a residue (GoldilocksField arithmetic produces non-canonical representations itself); results are compared by residue".into());
     ctx.assumptions.push("ConstantGate / RandomAccessGate extra-constant wires are written by the builder's ConstantGenerator, instantiated here exactly as CircuitBuilder::add_gate does".into());
     ctx.assumptions.push("eval_unfiltered_base_one is only called on gates that implement it; gates overriding eval_unfiltered_base_batch document it as unnecessary and panic".into());
+    ctx.assumptions.push("jointly_pinned is a first-order criterion (full column rank of the constraint Jacobian over the generator-written wires); it goes beyond the single-replacement wording of the property and is reported under its own sub-check name".into());
     ctx.assumptions.push("the inverse FFT used to read off constraint degrees is the library's (judged by C15); forward evaluation of the witness polynomials is Horner in this file".into());
     ctx.shrink_iters = 200;
 
@@ -1288,7 +1299,7 @@ pub fn run(ctx: &mut Ctx) {
         eprintln!("[C07 {}] sweep over every parameter value: {:.1}s", ctx.variant, t0.elapsed().as_secs_f64());
     }
     let (n_honest, n_pinned, n_pair, n_joint, n_base, n_circ, circ_rows, n_deg) =
-        ctx.tier.pick((6000, 3000, 600, 600, 2500, 320, 4, 1200), (150_000, 60_000, 12_000, 12_000, 60_000, 6000, 8, 24_000));
+        ctx.tier.pick((12_000, 6000, 1200, 1200, 5000, 800, 4, 3000), (400_000, 150_000, 30_000, 30_000, 120_000, 15_000, 8, 60_000));
     ctx.run_sub("honest_row", n_honest, 16, row_case, prop_honest);
     ctx.run_sub("pinned", n_pinned, 16, row_case, prop_pinned);
     ctx.run_sub("pair_pinned", n_pair, 16, pair_case, prop_pair);
